@@ -17,6 +17,9 @@ CONSTANTS
   SwFlatNested            \* a nested struct resolves its fields against the same flat source (C14)
 
 Iss(p, code, ty) == [path |-> PathStr(p), code |-> code, ty |-> ty]
+\* the required / not_nil issue of a node: Required(IssuePath(..)) / NotNil(IssuePath(..)) override the path (C10)
+ReqPath(node) == IF "reqpath" \in DOMAIN node THEN node.reqpath ELSE ""
+RIss(node, p, code, ty) == [path |-> IF ReqPath(node) # "" THEN ReqPath(node) ELSE PathStr(p), code |-> code, ty |-> ty]
 TIss(p, t, ty)   == [path |-> IF t.path # "" THEN t.path ELSE PathStr(p), code |-> t.code, ty |-> ty]
 
 \* ---- C10: which input key names a struct field ---------------------------
@@ -71,7 +74,7 @@ RefParse(node, in, p, fe) ==
          IF ParseAbsent(in) THEN
               IF node.def # None THEN (IF node.catch # None THEN <<>> ELSE FailedTests(node, node.def, p))
               ELSE IF ~node.req \/ node.catch # None THEN <<>>
-              ELSE <<Iss(p, "required", DType(node))>>
+              ELSE <<RIss(node, p, "required", DType(node))>>
          ELSE IF ~Coercible(node, in) THEN
               (IF node.catch # None THEN <<>> ELSE <<Iss(p, "coerce", DType(node))>>)
          ELSE IF node.catch # None THEN <<>> ELSE FailedTests(node, in.v, p)
@@ -96,11 +99,11 @@ RefParse(node, in, p, fe) ==
                IF i = 0 THEN <<>>
                ELSE E[i - 1] \o RefParse(Elem(node), src[i].val, Append(p, Idx(i - 1)), fe)
          IN IF ParseAbsent(in) /\ node.def = None THEN
-                 (IF node.req THEN <<Iss(p, "required", "slice")>> ELSE <<>>)
+                 (IF node.req THEN <<RIss(node, p, "required", "slice")>> ELSE <<>>)
             ELSE E[n] \o FailedTests(node, n, p)
     [] node.k = "ptr" ->
          IF ParseAbsent(in) THEN
-              (IF node.req THEN <<Iss(p, "not_nil", DType(node))>> ELSE <<>>)
+              (IF node.req THEN <<RIss(node, p, "not_nil", DType(node))>> ELSE <<>>)
          ELSE RefParse(Elem(node), in, p, fe)
     \* C12: a Preprocess type mismatch or error becomes an issue and skips the wrapped schema
     [] node.k = "pre" ->
@@ -120,7 +123,7 @@ RefValidate(node, d, dp, p) ==
   CASE node.k = "prim" ->
          LET v == IF d[dp] = 0 /\ node.def # None THEN node.def ELSE d[dp]
          IN IF d[dp] = 0 /\ node.def = None THEN
-                 (IF node.req /\ node.catch = None THEN <<Iss(p, "required", DType(node))>> ELSE <<>>)
+                 (IF node.req /\ node.catch = None THEN <<RIss(node, p, "required", DType(node))>> ELSE <<>>)
             ELSE IF node.catch # None THEN <<>> ELSE FailedTests(node, v, p)
     [] node.k = "custom" -> FailedTests(node, d[dp], p)
     [] node.k = "struct" ->
@@ -140,14 +143,14 @@ RefValidate(node, d, dp, p) ==
                          IF i = 0 THEN <<>>
                          ELSE E[i - 1] \o RefValidate(Elem(node), dd, Append(dp, Idx(i - 1)), Append(p, Idx(i - 1)))
                    IN E[n] \o FailedTests(node, n, p)
-              ELSE IF node.req THEN <<Iss(p, "required", "slice")>> ELSE <<>>
+              ELSE IF node.req THEN <<RIss(node, p, "required", "slice")>> ELSE <<>>
          ELSE LET n == d[dp]
                   E[i \in 0..n] ==
                     IF i = 0 THEN <<>>
                     ELSE E[i - 1] \o RefValidate(Elem(node), d, Append(dp, Idx(i - 1)), Append(p, Idx(i - 1)))
               IN E[n] \o FailedTests(node, n, p)
     [] node.k = "ptr" ->
-         IF d[dp] = 0 THEN (IF node.req THEN <<Iss(p, "not_nil", DType(node))>> ELSE <<>>)
+         IF d[dp] = 0 THEN (IF node.req THEN <<RIss(node, p, "not_nil", DType(node))>> ELSE <<>>)
          ELSE RefValidate(Elem(node), d, Append(dp, "*"), p)
     [] OTHER -> <<>>
 
@@ -288,6 +291,7 @@ Uncatch(node) ==
 \* issue paths (strings) of the catching nodes reached under a given input
 RECURSIVE CatchPathsP(_, _, _, _)
 OwnPaths(node, p) == {PathStr(p)} \cup {node.tests[i].path : i \in {j \in DOMAIN node.tests : node.tests[j].path # ""}}
+                     \cup (IF ReqPath(node) # "" THEN {ReqPath(node)} ELSE {})
 CatchPathsP(node, in, p, fe) ==
   CASE node.k = "prim" -> IF node.catch # None THEN OwnPaths(node, p) ELSE {}
     [] node.k = "struct" ->
@@ -312,5 +316,40 @@ CatchPathsV(node, d, dp, p) ==
          IN UNION {CatchPathsV(Elem(node), IF d[dp] > 0 THEN d ELSE Flatten(node, DefaultList(node), dp),
                                Append(dp, Idx(i - 1)), Append(p, Idx(i - 1))) : i \in 1..n}
     [] node.k = "ptr" -> IF d[dp] = 0 THEN {} ELSE CatchPathsV(Elem(node), d, Append(dp, "*"), p)
+    [] OTHER -> {}
+\* ---- C10: every path an issue of this execution can legitimately carry (node paths and IssuePath overrides) ----
+RECURSIVE NodePathsP(_, _, _, _)
+NodePathsP(node, in, p, fe) ==
+  OwnPaths(node, p) \cup
+  CASE node.k = "struct" ->
+         UNION {NodePathsP(node.kids[i].node, ChildIn(fe, node.kids[i].node, in, KeyOfIn(node.kids[i], fe, "parse", in)),
+                           Append(p, KeyOfIn(node.kids[i], fe, "parse", in)), ChildFe(fe)) : i \in DOMAIN node.kids}
+    [] node.k = "slice" ->
+         LET src == IF ParseAbsent(in) THEN (IF node.def = None THEN <<>> ELSE DefaultList(node).items)
+                    ELSE IF in.t = "list" THEN in.items ELSE <<Ent("", in)>>
+         IN UNION {NodePathsP(Elem(node), src[i].val, Append(p, Idx(i - 1)), fe) : i \in DOMAIN src}
+    [] node.k \in {"ptr", "pre"} -> NodePathsP(Elem(node), in, p, fe)
+    [] OTHER -> {}
+
+RECURSIVE NodePathsV(_, _, _, _)
+NodePathsV(node, d, dp, p) ==
+  OwnPaths(node, p) \cup
+  CASE node.k = "struct" ->
+         UNION {NodePathsV(node.kids[i].node, d, Append(dp, node.kids[i].key), Append(p, KeyOf(node.kids[i], "map", "validate"))) : i \in DOMAIN node.kids}
+    [] node.k = "slice" ->
+         LET n == IF dp \in DOMAIN d /\ d[dp] > 0 THEN d[dp] ELSE IF node.def # None THEN node.def ELSE 0
+         IN UNION {NodePathsV(Elem(node), IF dp \in DOMAIN d /\ d[dp] > 0 THEN d ELSE Flatten(node, DefaultList(node), dp),
+                              Append(dp, Idx(i - 1)), Append(p, Idx(i - 1))) : i \in 1..n}
+    [] node.k = "ptr" -> IF dp \in DOMAIN d /\ d[dp] # 0 THEN NodePathsV(Elem(node), d, Append(dp, "*"), p) ELSE {}
+    [] OTHER -> {}
+
+\* ---- C05: destination paths of the catching primitives that exist in a (reference) destination ----
+RECURSIVE CatchDP(_, _, _)
+CatchDP(node, dp, d) ==
+  CASE node.k = "prim" -> IF node.catch # None /\ dp \in DOMAIN d THEN {dp} ELSE {}
+    [] node.k = "struct" -> UNION {CatchDP(node.kids[i].node, Append(dp, node.kids[i].key), d) : i \in DOMAIN node.kids}
+    [] node.k = "slice" -> IF dp \in DOMAIN d /\ d[dp] > 0 THEN UNION {CatchDP(Elem(node), Append(dp, Idx(i - 1)), d) : i \in 1..d[dp]} ELSE {}
+    [] node.k = "ptr" -> IF dp \in DOMAIN d /\ d[dp] = 1 THEN CatchDP(Elem(node), Append(dp, "*"), d) ELSE {}
+    [] node.k = "pre" -> CatchDP(Elem(node), dp, d)
     [] OTHER -> {}
 =============================================================================
